@@ -17,6 +17,6 @@ echo "== demo with the change"; PYTHONPATH=$WT timeout 300 /venv/bin/python SEED
 cd /verif
 git -C /repo apply $SRC/patch.diff || exit 3
 echo "== checks with the change applied to /repo"
-for p in $PROPS; do echo $p; done | xargs -P 4 -I{} sh -c "./check {} quick > /tmp/seed_${NAME}_{}.txt 2>&1; echo {} exit=\$?"
+for p in $PROPS; do echo $p; done | xargs -P 4 -I{} sh -c "PYVC_NO_EVIDENCE=1 ./check {} quick > /tmp/seed_${NAME}_{}.txt 2>&1; echo {} exit=\$?"
 git -C /repo checkout -q -- .
 for p in $PROPS; do grep -h "VIOLATION\|UNDECIDED\|CHECKER" /tmp/seed_${NAME}_$p.txt | head -3 | cut -c1-260; grep -h "failed obligation" /tmp/seed_${NAME}_$p.txt | head -3 | cut -c1-260; done
